@@ -11,6 +11,7 @@ import (
 	_ "github.com/google/pprof/verif/checks/c08"
 	_ "github.com/google/pprof/verif/checks/c11"
 	_ "github.com/google/pprof/verif/checks/c12"
+	_ "github.com/google/pprof/verif/checks/c13"
 	_ "github.com/google/pprof/verif/checks/c14"
 	_ "github.com/google/pprof/verif/checks/c15"
 	_ "github.com/google/pprof/verif/checks/c17"
